@@ -51,6 +51,17 @@ Theorem C18_off_ignores_writes : forall (s : apu) (a v : N),
 Proof. exact off_write. Qed.
 Print Assumptions C18_off_ignores_writes.
 
+(* The length registers NR11/NR21/NR31/NR41 stay writable while powered off - in every state, whatever the power
+   flag, the write loads the length counter with 64 - t (256 - t for NR31). (C18_off_ignores_writes says nothing
+   else changes while off.) *)
+Theorem C18_length_writable_while_off : forall (s : apu) (v : N),
+  sqLength (ch1 (apu_bus_write s 0xFF11 v)) = 64 - v mod 64 /\
+  sqLength (ch2 (apu_bus_write s 0xFF16 v)) = 64 - v mod 64 /\
+  (v < 256 -> wvLength (ch3 (apu_bus_write s 0xFF1B v)) = 256 - v) /\
+  nsLength (ch4 (apu_bus_write s 0xFF20 v)) = 64 - v mod 64.
+Proof. exact length_writable. Qed.
+Print Assumptions C18_length_writable_while_off.
+
 (* Machine cycles (and single clocks) never change what NR10-NR51 read — from every state. *)
 Theorem C18_cycles_keep_reads : forall (s : apu) (r : reg),
   apu_bus_read (fst (apu_end_machine_cycle s)) (reg_addr r) = apu_bus_read s (reg_addr r).
